@@ -106,6 +106,10 @@ def check(run, views, tier, with_ops=True):
         # a request is serialised through IppAttributes::to_bytes itself (not through a variant of it with another leading list): C08's clause
         from . import c08 as _c08
         include(run, _c08, views, tier, "R-CHAIN|to_bytes")
+        # "third / fourth attribute on the wire" presupposes that each attribute occupies exactly the octets its length fields announce:
+        # the encoder layout and length-prefix clauses of C03 (a clamped or wrong length field makes the tail of one value read as the next attribute)
+        from . import c03 as _c03
+        include(run, _c03, views, tier, "R-LENPREFIX", "R-LAYOUT", "R-FRAME", "R-BE")
     run.explanation = (
         "R-ORDERLIST / R-ENDTAG: the emission schedule of IppAttributes::to_bytes is extracted as an ordered event tree "
         "from the resolved HIR. The operation delimiter must be the first emission on every path; the ordered part is a "
